@@ -79,6 +79,7 @@ pub(crate) mod repr {
     use crate::{
         arch::word::{DoubleWord, Word},
         buffer::Buffer,
+        error::panic_allocate_too_much,
         math::{self, bit_len, max_exp_in_word},
         memory::{self, MemoryAllocation},
         mul, mul_ops,
@@ -138,7 +139,8 @@ pub(crate) mod repr {
 
         // by now wexp / exp >= 2, result = wbase ^ (wexp / exp) * base ^ (wexp % exp)
         let (exp, exp_rem) = exp.div_rem(wexp);
-        let mut res = Buffer::allocate(exp + 1); // result is at most exp + 1 words
+        // result is at most exp + 1 words
+        let mut res = Buffer::allocate(exp.checked_add(1).unwrap_or_else(|| panic_allocate_too_much()));
         let mut allocation = MemoryAllocation::new(
             memory::add_layout(
                 memory::array_layout::<Word>(exp / 2 + 1), // store res before squaring
@@ -181,7 +183,8 @@ pub(crate) mod repr {
         debug_assert!(exp > 1);
         debug_assert!(base > Word::MAX as DoubleWord);
 
-        let mut res = Buffer::allocate(2 * exp); // result is at most 2 * exp words
+        // result is at most 2 * exp words
+        let mut res = Buffer::allocate(exp.checked_mul(2).unwrap_or_else(|| panic_allocate_too_much()));
         let mut allocation = MemoryAllocation::new(
             memory::add_layout(
                 memory::array_layout::<Word>(exp), // store res before squaring
